@@ -1,4 +1,5 @@
 """C12 — A reported fix is a real fix: re-analysis matches the report."""
+import os
 from . import lib
 
 META = {
@@ -39,7 +40,7 @@ def build_noshim(log):
         return None, []
     ov['Replace'] = {k: v for k, v in ov['Replace'].items() if k not in broken}
     os.makedirs(lib.VERIF + '/evidence', exist_ok=True)
-    path = lib.VERIF + '/evidence/.overlay-noshim-C12.json'
+    path = os.environ.get('TMPDIR', '/var/tmp') + '/.overlay-noshim-C12.json'
     json.dump(ov, open(path, 'w'))
     out_bin = lib.HARNESS + '/bin/c12gen-noshim'
     rc, out = lib.sh(['go', 'build', '-tags', 'verif,noshim', '-overlay', path, '-o', out_bin, './cmd/c12gen'], cwd=lib.HARNESS, env=lib.goenv(), timeout=3600)
@@ -84,7 +85,7 @@ def run(ctx):
     else:
         corp = lib.corpus_lines(ctx.prop)
         if corp:
-            tmp = lib.VERIF + '/evidence/.corpus-%s.txt' % ctx.prop
+            tmp = os.environ.get('TMPDIR', '/var/tmp') + '/.corpus-%s.txt' % ctx.prop
             open(tmp, 'w').write('\n'.join(corp) + '\n')
             r, okg = ctx.run_gen(binary, ['-replay', tmp])
             rows += r
